@@ -2,6 +2,7 @@ package engine
 
 import (
 	"fmt"
+	"os"
 	"go/token"
 	"go/types"
 	"sort"
@@ -23,6 +24,8 @@ type iterState struct {
 	pos  *Term
 	kind string // "map"
 	mt   *types.Map
+	id   *Term // identifies this execution of the range statement
+	n    *Term // number of keys at range time
 }
 
 func (s *State) clone() *State {
@@ -48,6 +51,10 @@ type Obligation struct {
 	Pos     token.Position
 	Cover   bool // satisfiable expected (vacuity guard)
 	Unit    *Unit
+	Parts   []*Obligation // discharged separately (one per return point); the parent is their conjunction
+	RetState *State       // state and results at the return point this (part) obligation talks about
+	RetVals  []*SV
+	Failed   *Obligation  // the part that failed (set by discharge)
 }
 
 type havocEvent struct {
@@ -99,6 +106,81 @@ type Unit struct {
 	retState     *State
 	retVals      []*SV
 	usedContracts map[string]bool
+	frameAx      map[int]*frameAxiom
+	ptrFacts     []ptrFact
+	elemTypes    map[int]types.Type // array-root type id -> element type
+	elemOrder    []int
+}
+
+type frameAxiom struct {
+	na, prev, bv, cond, guard *Term
+	at                        int
+}
+
+// frameInstances instantiates the frame axioms on every closed address at which a havocked array is read in ts.
+func (u *Unit) frameInstances(ts []*Term, nAssume int) []*Term {
+	if len(u.frameAx) == 0 {
+		return nil
+	}
+	c := u.c
+	var out []*Term
+	done := map[int]bool{}
+	seen := map[int]bool{}
+	var work []*Term
+	var scan func(t *Term)
+	scan = func(t *Term) {
+		if seen[t.id] {
+			return
+		}
+		seen[t.id] = true
+		if t.Op == "select" && !t.open {
+			if _, ok := u.frameAx[t.Args[0].id]; ok {
+				work = append(work, t)
+			}
+		}
+		for _, a := range t.Args {
+			scan(a)
+		}
+	}
+	for _, t := range ts {
+		scan(t)
+	}
+	for len(work) > 0 && len(out) < 20000 {
+		t := work[len(work)-1]
+		work = work[:len(work)-1]
+		if done[t.id] {
+			continue
+		}
+		done[t.id] = true
+		fa := u.frameAx[t.Args[0].id]
+		if fa.at > nAssume {
+			continue
+		}
+		a := t.Args[1]
+		cond := c.Subst(fa.cond, map[*Term]*Term{fa.bv: a})
+		inst := c.Implies(c.And(fa.guard, cond), c.Eq(t, c.Select(fa.prev, a)))
+		if inst.IsTrue() {
+			continue
+		}
+		out = append(out, inst)
+		scan(inst)
+	}
+	if os.Getenv("GOVC_DEBUG") == "2" {
+		fmt.Fprintf(os.Stderr, "frameInstances: %d axioms, %d instances, nAssume=%d\n", len(u.frameAx), len(out), nAssume)
+		for id, fa := range u.frameAx {
+			if strings.Contains(fa.na.Name, "Hh9_H_Bool") {
+				fmt.Fprintf(os.Stderr, "  axiom %d %s at=%d seen-select=%v\n", id, fa.na.Name, fa.at, len(done))
+			}
+		}
+	}
+	return out
+}
+
+type ptrFact struct {
+	x     *Term
+	elem  types.Type
+	guard *Term
+	at    int
 }
 
 func (u *Unit) warn(format string, args ...interface{}) {
@@ -200,7 +282,7 @@ func (u *Unit) eventArr(ev *havocEvent, key string, prev *Term) *Term {
 	r := c.BoundVar("r", SRef)
 	var conds []*Term
 	conds = append(conds, c.Lt(c.Root(r), ev.bound))
-	isMapKey := strings.HasPrefix(key, "MD:") || strings.HasPrefix(key, "MV:")
+	isMapKey := strings.HasPrefix(key, "MD:") || strings.HasPrefix(key, "MV:") || strings.HasPrefix(key, "ML:")
 	if isMapKey {
 		for _, m := range ev.frame.Maps {
 			conds = append(conds, c.Neq(r, m))
@@ -223,6 +305,10 @@ func (u *Unit) eventArr(ev *havocEvent, key string, prev *Term) *Term {
 	body := c.Implies(c.And(conds...), c.Eq(c.Select(na, r), c.Select(prev, r)))
 	ax := c.Forall([]*Term{r}, body, []*Term{c.mk("select", "", selSort(na), na, r)})
 	u.assume(ev.guard, ax)
+	if u.frameAx == nil {
+		u.frameAx = map[int]*frameAxiom{}
+	}
+	u.frameAx[na.id] = &frameAxiom{na: na, prev: prev, bv: r, cond: c.And(conds...), guard: ev.guard, at: len(u.assumptions)}
 	return na
 }
 
@@ -230,7 +316,17 @@ func selSort(arr *Term) *Sort { _, v := arr.Sort.arrayParts(); return v }
 
 // havoc applies a frame to the state: every materialised key gets a new array; later keys see the event lazily.
 func (u *Unit) havoc(st *State, guard *Term, fr *FrameSpec) {
+	if !fr.Any && len(fr.Roots) == 0 && len(fr.Leaves) == 0 && len(fr.Maps) == 0 {
+		// nothing visible changes: only allocation may have happened
+		na := u.c.Fresh("alloc", SInt)
+		u.assume(guard, u.c.Le(st.alloc, na))
+		st.alloc = na
+		return
+	}
 	ev := &havocEvent{guard: guard, frame: fr, bound: st.alloc, id: len(u.events), arrs: map[string]*Term{}}
+	if os.Getenv("GOVC_DEBUG") != "" {
+		fmt.Fprintf(os.Stderr, "havoc %d in %s: any=%v roots=%d leaves=%d maps=%d kinds=%v\n", ev.id, u.name, fr.Any, len(fr.Roots), len(fr.Leaves), len(fr.Maps), fr.Kinds)
+	}
 	keys := make([]string, 0, len(st.heap))
 	for k := range st.heap {
 		keys = append(keys, k)
